@@ -626,7 +626,11 @@ pub fn text_char() -> impl Strategy<Value = char> {
 }
 
 pub fn text(max: usize) -> impl Strategy<Value = String> {
-    prop::collection::vec(text_char(), 0..=max).prop_map(|v| v.into_iter().collect())
+    prop_oneof![
+        60 => prop::collection::vec(text_char(), 0..=max).prop_map(|v| v.into_iter().collect::<String>()),
+        // now and then something long (a few hundred characters, beyond small fixed-size buffers)
+        1 => (prop::collection::vec(text_char(), 1..=3), 100usize..400).prop_map(|(v, n)| v.into_iter().collect::<String>().repeat(n)),
+    ]
 }
 
 /// literal text for top-level/argument positions
